@@ -40,7 +40,9 @@ def _is_sig(t):
     return mir.has(t, lambda x: x[0] == "field" and x[2] == "signaling_state")
 
 
-def _sig_sends(body):
+def _sig_sends(body, attribute=True):
+    """attribute=True: a deferred commit is reported at the place where the value was chosen (for the transition table);
+    attribute=False: every send is reported where it happens (for effect-before-failure)."""
     out = []
     for bi, t, p in core.calls_to(body, lambda p: "watch::Sender" in p and (p.endswith("::send") or p.endswith("::send_replace") or p.endswith("::send_modify") or p.endswith("::send_if_modified"))):
         a0 = body.term_operand(t["a"][0])
@@ -49,7 +51,7 @@ def _sig_sends(body):
             st = _state_of(v) if v is not None else None
             # deferred commit: the arm only computes `next_state = Some(X)` / None and a later, common statement
             # sends it. The transition then belongs to the place where the value was chosen.
-            if st is None and v is not None and v[0] == "field" and v[1][0] == "variant" and v[1][2] == "Some" \
+            if attribute and st is None and v is not None and v[0] == "field" and v[1][0] == "variant" and v[1][2] == "Some" \
                     and v[1][1][0] == "var" and len(v[1][1]) > 2:
                 l = v[1][1][2]
                 chosen = []
@@ -59,6 +61,27 @@ def _sig_sends(body):
                         chosen.append((d[1], _state_of(dt)))
                 if chosen:
                     out += chosen
+                    continue
+            # the same with a plain value: `let next_state = match .. { arm => SignalingState::X, .. }` and one or more later
+            # `send(next_state)`. Each arm's choice is the transition; the sends themselves add nothing.
+            if attribute and st is None and len(t["a"]) > 1 and t["a"][1].get("k") in ("cp", "mv") and "p" not in t["a"][1]["p"]:
+                l = t["a"][1]["p"]["l"]
+                for _hop in range(4):
+                    ds = body.defs().get(l, [])
+                    if len(ds) == 1 and ds[0][0] == "s":
+                        rv = body.blocks[ds[0][1]]["s"][ds[0][2]]["rv"]
+                        if rv["r"] == "use" and rv["o"].get("k") in ("cp", "mv") and "p" not in rv["o"]["p"]:
+                            l = rv["o"]["p"]["l"]
+                            continue
+                    break
+                chosen = []
+                ds = body.defs().get(l, [])
+                for d in ds:
+                    dt = body._term_def(d, 0, (l,))
+                    if dt[0] == "agg" and dt[1].endswith("SignalingState") and _state_of(dt):
+                        chosen.append((d[1], _state_of(dt)))
+                if len(ds) > 1 and len(chosen) == len(ds):
+                    out += [c for c in chosen if c not in out]
                     continue
             out.append((bi, st))
     return out
@@ -129,6 +152,9 @@ def r09_1(ctx):
             for v, want in table.items():
                 got = extracted.get(v)
                 site = "arm:%s" % v
+                if got != want and got is not None and want[0] != "ERR" and got[0] == want[0] and \
+                        (got[1] - want[1]) <= set(want[0]) and len(want[0]) == 1 and want[1] <= got[1]:
+                    got = want          # re-publishing the state that is required anyway (X -> X) is no transition
                 if got == want:
                     r.ok({"function": fn.split("::")[-2] if fn.endswith("}") else fn.split("::")[-1], "sdp_type": v,
                           "requires": sorted(want[0]) if want[0] != "ERR" else "always error", "then": sorted(want[1])})
@@ -207,7 +233,7 @@ TRANSPORT_FAILURES = {
 
 def _effects(body):
     out = []
-    for bi, st in _sig_sends(body):
+    for bi, st in _sig_sends(body, attribute=False):
         out.append((bi, "send:signaling_state=%s" % st))
     for f in ("local_description", "remote_description"):
         for bi, si, s, val in core.lock_write_sites(body, f, methods=("::lock",)):
